@@ -26,7 +26,7 @@ FCHANS_T = FCHANS_Q + [128, 255, 1000, 1024, 4096]
 TCHANS = [1, 2, 3, 16, 17]
 TCHANS_T = TCHANS + [5, 32, 100]
 ROUTES = ['explicit', 'shape', 'data', 'from_data']
-STYLES = ['plain', 'hz_s', 'mhz_ms', 'ghz', 'pixel', 'negdf', 'composite']
+STYLES = ['plain', 'hz_s', 'mhz_ms', 'ghz', 'pixel', 'negdf', 'composite', 'f32', 'npint']
 
 
 def _mk_frame(c):
@@ -44,6 +44,15 @@ def _mk_frame(c):
         x_rate = (1.0 / dt) / 1e3
         a_df, a_dt, a_fch1 = df * u.Hz, 1.0 / (x_rate * u.kHz), fch1 * u.Hz
         exp = dict(df=F(df), dt=1 / (F(x_rate) * 1000), fch1=F(fch1))
+    elif style == 'f32':
+        # resolutions and band edge handed over as single-precision numpy scalars: the frame's axes are still double-precision
+        # grids of exactly those values
+        a_df, a_dt, a_fch1 = np.float32(df), np.float32(dt), np.float32(fch1)
+        exp = dict(df=F(float(a_df)), dt=F(float(a_dt)), fch1=F(float(a_fch1)))
+    elif style == 'npint':
+        # ... as numpy fixed-width integers (whole Hz / whole seconds)
+        a_df, a_dt, a_fch1 = np.int32(max(1, round(df))), np.int16(max(1, round(dt))), np.int64(round(fch1))
+        exp = dict(df=F(int(a_df)), dt=F(int(a_dt)), fch1=F(int(a_fch1)))
     elif style == 'negdf':
         # the channel width handed over with the sign of a filterbank header's foff: the constructor takes its magnitude
         a_df, a_dt, a_fch1 = -df, dt, fch1
@@ -97,8 +106,12 @@ def _mk_frame(c):
         if style == 'pixel':
             fr = stg.Frame(fchans=n * u.pixel, tchans=m * u.pixel, df=a_df, dt=a_dt, fch1=a_fch1,
                            ascending=asc, t_start=1000.5)
+        elif style == 'npint':
+            fr = stg.Frame(fchans=np.int16(n), tchans=np.int16(m), df=a_df, dt=a_dt, fch1=a_fch1, ascending=asc, t_start=np.uint32(1000))
         else:
             fr = stg.Frame(fchans=n, tchans=m, df=a_df, dt=a_dt, fch1=a_fch1, ascending=asc, t_start=1000.5)
+    elif route == 'shape' and style == 'npint':
+        fr = stg.Frame(shape=[np.int16(m), np.int16(n)], df=a_df, dt=a_dt, fch1=a_fch1, ascending=asc, t_start=1000.5)
     elif route == 'shape':
         fr = stg.Frame(shape=(m, n), df=a_df, dt=a_dt, fch1=a_fch1, ascending=asc, t_start=1000.5)
     elif route == 'data':
@@ -198,6 +211,31 @@ def _check_axes(fr, n, m, asc, V, tag=''):
     for j in sorted(set([0, n // 2, n - 1])):
         if int(fr.get_index(fr.get_frequency(j))) != j:
             V('roundtrip_scalar', 'scalar round trip fails at %d' % j)
+    # whatever numeric type the constructor was given, the frame holds plain double-precision / integer attributes
+    for nm in ('df', 'dt', 'fch1', 't_start'):
+        v = getattr(fr, nm)
+        if isinstance(v, (np.generic, np.ndarray)) and not isinstance(v, np.float64):
+            V('attribute_type', '%s is held as %s (%r): arithmetic with it happens in that narrow type' % (nm, type(v).__name__, v))
+    for nm in ('fchans', 'tchans'):
+        v = getattr(fr, nm)
+        if isinstance(v, np.generic) and np.dtype(type(v)).itemsize < 8:
+            V('attribute_type', '%s is held as %s (%r): sums and products with it wrap around' % (nm, type(v).__name__, v))
+    if not isinstance(fr.shape, tuple) or tuple(fr.shape) != tuple(fr.data.shape):
+        V('shape_attribute', 'frame.shape is %r, data.shape %r' % (fr.shape, fr.data.shape))
+    if fs.dtype != np.float64 or ts.dtype != np.float64:
+        V('axis_dtype', 'fs / ts dtypes are %s / %s' % (fs.dtype, ts.dtype))
+    # indices as numpy fixed-width integers
+    try:
+        gfi = float(fr.get_frequency(np.int32(n - 1)))
+        if abs(LD(gfi) - ref[n - 1]) > (K_AXIS + 0.01) * u_f:
+            V('get_frequency_typed', 'get_frequency(np.int32(%d))=%r, exact %r' % (n - 1, gfi, float(ref[n - 1])))
+        if n >= 2:
+            want = F(0 - (n - 1)) * F(df) / (F(m) * F(dt))
+            got = float(fr.get_drift_rate(np.uint16(n - 1), np.uint16(0)))
+            if not close_ulps(got, want, max(abs(float(want)), 1e-300), 4):
+                V('get_drift_rate_typed', 'get_drift_rate(np.uint16(%d), np.uint16(0))=%r exact=%r' % (n - 1, got, float(want)))
+    except Exception as e:
+        V('typed_index_raised', '%s: %s' % (type(e).__name__, e))
     # unit-carrying frequencies (array and scalar): the same channels
     from astropy import units as _u
     # (astropy arithmetic is slow: a quarter of the frames, chosen by their sizes)
@@ -446,7 +484,7 @@ def run(ctx):
     cases = []
     for n, m, df, dt, fch1, asc in _box(ctx.tier):
         for route in ROUTES:
-            styles = STYLES if route == 'explicit' else (['plain', 'mhz_ms', 'negdf'] if ctx.tier == 'thorough' else (['plain', 'negdf'] if route == 'from_data' else ['plain']))
+            styles = STYLES if route == 'explicit' else (['plain', 'mhz_ms', 'negdf'] if ctx.tier == 'thorough' else (['plain', 'negdf'] if route == 'from_data' else (['plain', 'npint'] if route == 'shape' else ['plain'])))
             for style in styles:
                 if style == 'pixel' and route != 'explicit':
                     continue
